@@ -217,3 +217,19 @@ Example C18_nonvacuous_defaults :
   fst (unpack_top env_dflt (TDC 0) w 5) = VObj 0 5 [VSeq KList 6 [VAtom 1%Z]; VSeq KList 7 []; VAtom 0%Z; VAtom 2%Z] /\
   fst (pack_top env0 None [OList] (TSeq OList TLit) (VSeq KList 0 [VAtom 1%Z]) 1) = VSeq KList 1 [VAtom 1%Z].
 Proof. vm_compute. repeat split; reflexivity. Qed.
+
+(* TypedDict (TRec) and ChainMap (TComp KChainMap (TRMap K V)) are always rebuilt: under any no_copy set
+   the containers of the result are new, only items at by-reference positions stay the argument's. *)
+Example C18_nonvacuous_typeddict_chainmap :
+  let td := TRec [TSeq OList TAtom; TAtom] in
+  let v := VMap KDict 0 [(VAtom 0%Z, VSeq KList 1 [VAtom 1%Z]); (VAtom 0%Z, VAtom 2%Z)] in
+  let cm := TComp KChainMap (TRMap TAtom (TSeq OList TAtom)) in
+  let c := VSeq KChainMap 0 [VMap KDict 1 [(VAtom 0%Z, VSeq KList 2 [VAtom 1%Z])]] in
+  conforms env0 v td = true /\ udet env0 v None [OList; ODict] true td = true /\
+  fst (pack_top env0 None [OList; ODict] td v 3) = VMap KDict 3 [(VAtom 0%Z, VSeq KList 1 [VAtom 1%Z]); (VAtom 0%Z, VAtom 2%Z)] /\
+  maxold 3 (fst (pack_top env0 None [] td v 3)) = [] /\
+  conforms env0 c cm = true /\
+  fst (pack_top env0 None [OList; ODict] cm c 3) = VSeq KList 3 [VMap KDict 4 [(VAtom 0%Z, VSeq KList 2 [VAtom 1%Z])]] /\
+  fst (unpack_top env0 cm (VSeq KList 0 [VMap KDict 1 [(VAtom 0%Z, VSeq KList 2 [VAtom 1%Z])]]) 3)
+    = VSeq KChainMap 3 [VMap KDict 4 [(VAtom 0%Z, VSeq KList 5 [VAtom 1%Z])]].
+Proof. vm_compute. repeat split; reflexivity. Qed.
